@@ -358,7 +358,7 @@ def _signature(clauses, item, run_idx):
     sig = {"clauses": sorted(clauses)}
     if "ReturnedOK" in clauses:
         fs = r["fs"]
-        rebuilt = len({(t["off"], t["newer"]) for t in r["traj"]}) > 1  # this run wrote the offset table itself
+        rebuilt = len(cf.dedupe([t["off"] for t in r["traj"]])) > 1  # this run wrote the offset table itself
         if fs["doc"] != "full":
             sig["defect"] = "wrong-document-accepted"
             if not rebuilt:
@@ -469,7 +469,7 @@ def run(ctx, out):
         "documents are ndjson with \\n line ends; S3/GCS transports are not exercised (HTTP(S) only, scripted below net._request at the urllib3 pool manager; urllib3's own HTTPResponse streaming and Content-Length enforcement are real)",
         "no checksums exist in the track format: a complete local file is taken to be the published one unless its size contradicts a DECLARED size; initial document files of undeclared size are missing or genuine (partial ones of undeclared size are reached through crashed or failed runs); archives of the published size are the published archive",
         "for an uncompressed corpus of undeclared size a complete HTTP exchange whose body is cut inside the last line is indistinguishable from the published file and excluded",
-        "torn / unparsable offset tables (cut inside an entry) stand for interrupted builds of tables larger than the 8 KiB write buffer (>= 25 million lines); in the sandbox (100001 lines) a killed build leaves an empty table, so those states are initial states, not crash leftovers",
+        "torn / unparsable offset tables (cut inside an entry) are INITIAL states only (what a power loss, a full disk or an interrupted copy of the data directory leaves): a killed process cannot produce them, CPython's text layer hands complete print() pieces to the OS, so a killed build leaves a correct prefix of the table (observed: the empty table)",
         "a kill is os._exit of a forked child at an observed C-level call (open/write/rename/remove/utime/close/fork_exec...), an interrupt is a BaseException raised at that call; while an external decompressor runs no crash is injected (its progress is scheduling dependent)",
         "pbzip2 / pzstd are not installed: thin wrappers around the bzip2 / zstd binaries stand in for them (pigz is real); 'fail' tools exit 1 without output",
         "mtimes written by a run are moved to deterministic instants between runs, keeping their order (no verdict depends on the clock granularity)",
